@@ -17,8 +17,8 @@ ID = "C03"
 LEVEL = "exploration"
 RULE = ("(i) bounded-exhaustive layouts: every (shared prefix, referrer chain, target chain) of group/repeat containers up to "
         "total depth 3 (quick) / 4 (thorough), both sheet orders, x cell kinds {relevant, constraint, calculation, required, "
-        "readonly, default, choice_filter, repeat_count, trigger, seed, label, hint, guidance_hint, constraint_message, "
-        "required_message, bind::custom}; (ii) Hypothesis 'refs' profile forms with several references per expression, "
+        "readonly, default, choice_filter, external-select choice_filter, repeat_count, trigger, seed, label, hint, guidance_hint, "
+        "constraint_message, required_message, bind::custom}; (ii) Hypothesis 'refs' profile forms with several references per expression, "
         "indexed-repeat/instance()/pulldata/last-saved, plus missing-name and ambiguous-name mutations; non-trivial = referrer "
         "or target inside >=1 repeat; distinct by SHA-1 of the case JSON")
 ASSUMPTIONS = ["'reaches' is decided by static resolution of the emitted path over the parsed instance (exact for /a/b, ../x, current()/../x)",
@@ -30,7 +30,8 @@ EXHAUSTIVE_NOTE = "exhaustive over container layouts to the stated depth x the l
 BIND_EXPR = {"relevant": "relevant", "constraint": "constraint", "calculation": "calculate", "required": "required", "readonly": "readonly"}
 TEXT_KINDS = {"label": "label", "hint": "hint", "guidance_hint": "hint", "constraint_message": "jr:constraintMsg", "required_message": "jr:requiredMsg"}
 LAYOUT_KINDS = ["relevant", "constraint", "calculation", "required", "readonly", "default", "choice_filter", "repeat_count",
-                "trigger", "seed", "label", "hint", "guidance_hint", "constraint_message", "required_message", "bind::custom"]
+                "trigger", "seed", "label", "hint", "guidance_hint", "constraint_message", "required_message", "bind::custom",
+                "ext_choice_filter"]
 
 
 # ------------------------------------------------------------------ layouts
@@ -73,6 +74,8 @@ def make_layout_form(pre, a, b, kind, target_first):
     elif kind == "choice_filter":
         rc = {"type": "select_one l", "name": "R", "label": "referrer", "choice_filter": f"name = {ref}"}
         lists = [{"name": "l", "rows": [{"name": "a", "label": "A"}]}]
+    elif kind == "ext_choice_filter":
+        rc = {"type": "select_one_external ecl", "name": "R", "label": "referrer", "choice_filter": f"state = {ref}"}
     elif kind == "seed":
         rc = {"type": "select_one l", "name": "R", "label": "referrer", "parameters": f"randomize=true seed={ref}"}
         lists = [{"name": "l", "rows": [{"name": "a", "label": "A"}]}]
@@ -100,6 +103,8 @@ def make_layout_form(pre, a, b, kind, target_first):
     form = {"nodes": nodes, "args": {}}
     if lists:
         form["lists"] = lists
+    if kind == "ext_choice_filter":
+        form["ext"] = [{"list_name": "ecl", "name": "a", "label": "A", "state": "x"}]
     return form
 
 
